@@ -324,3 +324,14 @@ CLAIMED['C17']['text'] += ' Every third case traces IPv6 targets; structured cas
 CLAIMED['C18']['text'] += ' ECMP variants of different length and structured cases with flows of 4 and 5 hops (privacy bound of the flow shown, not of the combined flow).'
 CLAIMED['C09']['text'] += ' startuprace lines: clear() looping on a second thread while the run fails at start-up - the error must survive.'
 CLAIMED['C08']['text'] += ' The clock-step knob also stamps responses in the future of the next clock reading.'
+
+# tenth generation of seeded changes
+CLAIMED['C02']['text'] += ' Very long runs (1060 rounds from initial sequence 64511 to a target one hop away, Paris and Dublin): the per-round flow port passes 65534 and starts over at 0 - responses must still be matched.'
+CLAIMED['C07']['text'] += ' The long-run family also draws IPv4-mapped IPv6 targets for Dublin/UDP (an IPv6 target: the sequence starts over every 512).'
+CLAIMED['C12']['text'] += (' STATELESS OBJECTS: after every setter case the object that was written through must describe itself (Debug text: every field, options, payload) exactly as a fresh '
+    'read-only view over its bytes does - an accessor may depend on the buffer alone.')
+CLAIMED['C13']['text'] += ' All-ones contents with a few small words (the carry corner of a 16-, 32- or 64-bit accumulator folded once too few) are drawn for every checksum function.'
+CLAIMED['C14']['text'] += ' Built messages with 31..100 small objects and an MPLS stack as the last object (no limit on the number of objects), both modes and families.'
+CLAIMED['C16']['text'] += (' WHICH FILE (Tui/FileChoice.v, Proofs/FileChoiceProofs.v, c16_named_file_wins, c16_first_default_location, c16_no_file_is_default, c16_chosen_source_index; 53 obligations in all): the file named '
+    'with -c wins whatever lies in the default locations, otherwise the first default location in the documented order that holds a file, otherwise the built-in defaults; c16loc lines run the real '
+    'TrippyConfig::from over real files in all 2^8 combinations of the eight default locations (HOME / XDG_CONFIG_HOME / current directory redirected to a scratch directory), with and without -c.')
